@@ -67,6 +67,73 @@ def clear_norm_cache(tree: ast.AST) -> ast.AST:
     return tree
 
 
+# module-level names bound to a tuple of (exception) classes, program wide: name -> dotted class names
+EXC_ALIASES: Dict[str, List[str]] = {}
+
+
+_RE_METHODS = {"search", "match", "fullmatch", "sub", "subn", "split", "findall", "finditer"}
+
+
+def _canonical_regex_calls(tree: ast.Module) -> ast.Module:
+    """NAME = re.compile(P) at module or class level (bound once) followed by NAME.search(x) / self.NAME.search(x) is read as
+    re.search(P, x): one spelling of a regular-expression test for every rule.  Flags are carried as the flags argument."""
+    consts = {}
+    counts = {}
+    def note(targets, value, prefix):
+        for t in targets:
+            if isinstance(t, ast.Name):
+                counts[prefix + t.id] = counts.get(prefix + t.id, 0) + 1
+                if isinstance(value, ast.Call) and dotted(value.func) == "re.compile" and value.args and not value.keywords \
+                        and len(value.args) <= 2:
+                    consts[prefix + t.id] = value
+    for node in tree.body:
+        if isinstance(node, ast.Assign):
+            note(node.targets, node.value, "")
+        elif isinstance(node, ast.AnnAssign) and node.value is not None:
+            note([node.target], node.value, "")
+        elif isinstance(node, ast.ClassDef):
+            for item in node.body:
+                if isinstance(item, ast.Assign):
+                    note(item.targets, item.value, "self.")
+                elif isinstance(item, ast.AnnAssign) and item.value is not None:
+                    note([item.target], item.value, "self.")
+    consts = {k: v for k, v in consts.items() if counts.get(k) == 1}
+    if not consts:
+        return tree
+    # names assigned anywhere else (function locals, global statements) are left alone
+    for n in ast.walk(tree):
+        if isinstance(n, ast.Global):
+            for nm in n.names:
+                consts.pop(nm, None)
+        if isinstance(n, (ast.FunctionDef, ast.AsyncFunctionDef)):
+            for m in ast.walk(n):
+                if isinstance(m, ast.Name) and isinstance(m.ctx, ast.Store):
+                    consts.pop(m.id, None)
+                if isinstance(m, ast.Attribute) and isinstance(m.ctx, ast.Store) and dotted(m) and dotted(m).startswith(("self.", "cls.")):
+                    consts.pop("self." + m.attr, None)
+
+    class T(ast.NodeTransformer):
+        def visit_Call(self, node):
+            self.generic_visit(node)
+            f = node.func
+            if isinstance(f, ast.Attribute) and f.attr in _RE_METHODS:
+                d = dotted(f.value) or ""
+                key = d if d in consts else ("self." + d.split(".", 1)[1] if d.startswith(("self.", "cls.")) and "self." + d.split(".", 1)[1] in consts else None)
+                if key is not None:
+                    comp = consts[key]
+                    import copy
+
+                    new = ast.Call(func=ast.Attribute(value=ast.Name(id="re", ctx=ast.Load()), attr=f.attr, ctx=ast.Load()),
+                                   args=[copy.deepcopy(comp.args[0])] + list(node.args), keywords=list(node.keywords))
+                    if len(comp.args) == 2:
+                        new.keywords.append(ast.keyword(arg="flags", value=copy.deepcopy(comp.args[1])))
+                    ast.copy_location(new, node)
+                    return ast.fix_missing_locations(new)
+            return node
+
+    return T().visit(tree)
+
+
 class FuncInfo:
     def __init__(self, module: "Module", cls: Optional["ClassInfo"], node):
         self.module = module
@@ -114,7 +181,7 @@ class Module:
         self.name = name  # e.g. pygopherd.handlers.base
         self.relpath = relpath
         self.source = source
-        self.tree = ast.parse(source, filename=relpath)
+        self.tree = _canonical_regex_calls(ast.parse(source, filename=relpath))
         self.imports: Dict[str, str] = {}  # local name -> dotted target
         self.star_imports: List[str] = []
         self.classes: Dict[str, ClassInfo] = {}
@@ -262,6 +329,10 @@ class Program:
                     mod.functions[node.name] = FuncInfo(mod, None, node)
                 elif isinstance(node, ast.Assign):
                     for t in node.targets:
+                        if isinstance(t, ast.Name) and isinstance(node.value, ast.Tuple) and node.value.elts \
+                                and all(dotted(e) for e in node.value.elts):
+                            # NAME = (ExcA, mod.ExcB): usable in `except NAME:` / contextlib.suppress(*NAME)
+                            EXC_ALIASES[t.id] = [dotted(e) for e in node.value.elts]
                         for n in ast.walk(t):
                             if isinstance(n, ast.Name):
                                 mod.globals.setdefault(n.id, []).append(node.value)
